@@ -3,6 +3,7 @@ import CE.Rules.Table
 import CE.Rules.Markers
 import CE.Rules.Pending
 import CE.Rules.PendingDistinct
+import CE.Rules.Masks
 /-
   C13 — markers and local references are consistent in every accepted document.
 
@@ -25,9 +26,12 @@ import CE.Rules.PendingDistinct
   identifiers together contain no identifier twice (CE/Rules/PendingDistinct.lean).  For the type masks of
   forward references the two mechanism halves are theorems (`forward_reference_mask_narrows`: a waiting id's
   mask only narrows, within every reference's own mask; `marking_checks_the_waiting_mask`: a waiting id is
-  registered only with a type inside that mask).  The type masks over whole documents are
-  `…_partial`: exercised by the WF.REL oracle against the independent grammar's global
-  conditions (`Spec.globalOK`) on every run.
+  registered only with a type inside that mask).  The type masks over whole documents: `key_references_of_an_accepted_document_name_keyable_objects` and
+  `references_of_an_accepted_document_fit_their_position` (CE/Rules/Masks.lean) - in every accepted document, a
+  reference standing where the current rule records references with mask m (key positions: keyable, elsewhere: any)
+  names a marker whose registered type is inside m, marker before or after.  Still `…_partial`: "no marker on a
+  marker/reference/record type" over whole documents (the rule-table rows are proved, the lift is exercised by
+  the WF.REL oracle against `Spec.globalOK` on every run).
 -/
 namespace CE.Props.C13
 open CE CE.Rules
@@ -201,6 +205,38 @@ example :
     let env : Env := { tbl := Model.ruleTable, identSafe := fun _ => true }
     (run env RState.init [.beginDoc, .version 0, .list, .refLocal [97]] 0).2.2.forward.map (·.1) = [[97]] ∧
     (run env RState.init [.beginDoc, .version 0, .list, .refLocal [97], .marker [97], .posInt 1] 0).2.2.forward = [] := by
+  decide +kernel
+
+/-- the type of every referenced object fits the position of the reference, in every accepted document -/
+theorem references_of_an_accepted_document_fit_their_position (env : Env) (htbl : env.tbl = Model.ruleTable)
+    (a b : List Ev) (id : Bytes) (m : DT)
+    (h : (run env RState.init (a ++ (Ev.refLocal id :: (b ++ [Ev.endDoc]))) 0).2.1 = none)
+    (hm : refMask (Model.ruleTable (run env RState.init a 0).2.2.cur.rule .onReferenceLocal) = some m) :
+    ∃ dt, lookupForward (run env RState.init (a ++ (Ev.refLocal id :: (b ++ [Ev.endDoc]))) 0).2.2.marked id = some dt ∧
+      dt &&& m ≠ 0 :=
+  accepted_reference_types_fit env htbl a b id m h hm
+
+/-- key references point to keyable objects: a reference accepted where the rule uses the keyable mask (map
+    keys) names, when the accepted document ends, a marker registered with a keyable type -/
+theorem key_references_of_an_accepted_document_name_keyable_objects (env : Env) (htbl : env.tbl = Model.ruleTable)
+    (a b : List Ev) (id : Bytes)
+    (h : (run env RState.init (a ++ (Ev.refLocal id :: (b ++ [Ev.endDoc]))) 0).2.1 = none)
+    (hk : (Model.ruleTable (run env RState.init a 0).2.2.cur.rule .onReferenceLocal).head? = some .localRefKeyable) :
+    ∃ dt, lookupForward (run env RState.init (a ++ (Ev.refLocal id :: (b ++ [Ev.endDoc]))) 0).2.2.marked id = some dt ∧
+      dt &&& Mask.keyable.bits ≠ 0 := by
+  refine accepted_reference_types_fit env htbl a b id _ h ?_
+  generalize Model.ruleTable (run env RState.init a 0).2.2.cur.rule .onReferenceLocal = acts at hk
+  match acts, hk with
+  | .localRefKeyable :: _, _ => rfl
+
+/-- non-vacuity of the two above: a map whose key is a forward reference to a marked string is accepted, and
+    the key position does use the keyable mask; with the marker on a list instead it is rejected -/
+example :
+    let env : Env := { tbl := Model.ruleTable, identSafe := fun _ => true }
+    let a : List Ev := [.beginDoc, .version 0, .list, .map]
+    (run env RState.init (a ++ (Ev.refLocal [97] :: ([.posInt 1, .endContainer, .marker [97], .posInt 5, .endContainer] ++ [Ev.endDoc]))) 0).2.1 = none ∧
+    (Model.ruleTable (run env RState.init a 0).2.2.cur.rule .onReferenceLocal).head? = some .localRefKeyable ∧
+    (run env RState.init (a ++ (Ev.refLocal [97] :: ([.posInt 1, .endContainer, .marker [97], .list, .endContainer, .endContainer] ++ [Ev.endDoc]))) 0).2.1 ≠ none := by
   decide +kernel
 
 /-- non-vacuity: a list with a forward reference and its marker is accepted -/
